@@ -68,7 +68,8 @@ ArrBad(e, rt, cn) ==
          ELSE (IF ~rt[id].result THEN {<<l, "ghost", a[4], a[5]>>} ELSE {})
               \cup (IF a[1] # rt[id].owner \/ a[2] # rt[id].kind \/ a[4] # rt[id].t \/ a[5] # rt[id].s
                        \/ a[3] # (IF a[2] = "msg" THEN a[4] ELSE a[5]) THEN {<<l, "wrongpair", a[4], a[5]>>} ELSE {})
-              \cup (IF id \in DOMAIN cn THEN {<<l, "twice", a[4], a[5]>>} ELSE {})
+              \cup (IF id \in DOMAIN cn \/ Cardinality({x \in 1..Len(e.arr) : e.arr[x][6] = id /\ e.arr[x][2] # "wm"}) > 1
+                    THEN {<<l, "twice", a[4], a[5]>>} ELSE {})
          : a \in Range(e.arr)}
 CountAfter(e, cn) == [id \in DOMAIN cn \cup {a[6] : a \in {x \in Range(e.arr) : x[2] # "wm"}} |-> 1]
 IsRoute(e) == e.a \in {"RouteMsg", "RouteAck"}
